@@ -302,7 +302,7 @@ def traceLine (toks : List String) : String :=
           else
             let vl : List String := (kvD toks "valid" "-").splitOn ","
             let rec go (s : State) (rr : Ref.RState) (prev : Nat) (idx : Nat) (l : List String) (tail : List Op)
-                (sBody : State) : Except String (State × Nat × List Op × State) :=
+                (sBody : State) (rem : List UInt8) : Except String (State × Nat × List Op × State) :=
               match l with
               | [] => .ok (s, prev, tail, sBody)
               | stp :: rest =>
@@ -325,7 +325,8 @@ def traceLine (toks : List String) : String :=
                     else if !snapMatches s sn then
                       .error s!"step {idx}: state before {opHex} differs: model stack={stackDigest s.stack} memo={memoDigest s.memo} top={stackStr (s.stack.take 6)} impl stack={sn.stackDig} memo={sn.memoDig}"
                     else
-                      let delta := dropTake out prev sn.outLen
+                      let delta := rem.take (sn.outLen - prev)
+                      let rem' := rem.drop (sn.outLen - prev)
                       match Lex.lexOne delta with
                       | .error e => .error s!"step {idx}: emitted bytes {hexOf (delta.take 40)} do not lex: {reprStr e}"
                       | .ok (ins, r) =>
@@ -338,8 +339,13 @@ def traceLine (toks : List String) : String :=
                             | .error _ => rr
                           if idx < bodyEnd then
                             let listed := (((vl[idx]?).getD "-").splitOn "@").headD "-"
-                            let mlist := hexOf ((validOps (Gen.table c.version) c s).map Gen.asU8)
-                            if listed == "-" && (kv toks "valid").isSome then
+                            let mlist := if listed == "~" then "" else hexOf ((validOps (Gen.table c.version) c s).map Gen.asU8)
+                            if listed == "~" then
+                              (if !(Gen.table c.version).contains ins.op then .error s!"step {idx}: {ins.op.name} not in the protocol table"
+                               else if !canEmit c s ins.op then .error s!"step {idx}: {ins.op.name} emitted but the model's guard is false; top={stackStr (s.stack.take 6)}"
+                               else if !c.unsafeMut && !argOk s ins.op ins.arg then .error s!"step {idx}: {ins.op.name} argument {reprStr ins.arg} not admissible (memo size {s.memo.length})"
+                               else go (process c.version s ins.op ins.arg) rr' sn.outLen (idx + 1) rest tail sBody rem')
+                            else if listed == "-" && (kv toks "valid").isSome then
                               .error s!"step {idx}: the body loop did not report the candidate list it drew from (the draw no longer goes through weighted_choice?)"
                             else if listed != "-" && listed != (if mlist.isEmpty then "e" else mlist) then
                               .error s!"step {idx}: the candidate list the body loop drew from differs from the guards: loop={listed} guards={mlist} top={stackStr (s.stack.take 6)} memo={s.memo.length}"
@@ -347,10 +353,10 @@ def traceLine (toks : List String) : String :=
                             if !(Gen.table c.version).contains ins.op then .error s!"step {idx}: {ins.op.name} not in the protocol table"
                             else if !canEmit c s ins.op then .error s!"step {idx}: {ins.op.name} emitted but the model's guard is false; top={stackStr (s.stack.take 6)}"
                             else if !c.unsafeMut && !argOk s ins.op ins.arg then .error s!"step {idx}: {ins.op.name} argument {reprStr ins.arg} not admissible (memo size {s.memo.length})"
-                            else go (process c.version s ins.op ins.arg) rr' sn.outLen (idx + 1) rest tail sBody
-                          else go (process c.version s ins.op ins.arg) rr' sn.outLen (idx + 1) rest (tail ++ [ins.op]) sBody
+                            else go (process c.version s ins.op ins.arg) rr' sn.outLen (idx + 1) rest tail sBody rem'
+                          else go (process c.version s ins.op ins.arg) rr' sn.outLen (idx + 1) rest (tail ++ [ins.op]) sBody rem'
                 | _ => .error s!"step {idx}: malformed"
-            match go s0 {} hdr 0 steps [] s0 with
+            match go s0 {} hdr 0 steps [] s0 (out.drop hdr) with
             | .error e => fail e
             | .ok (sf, prev, tail, sBody) =>
               let sBody := if steps.length == bodyEnd then sf else sBody
